@@ -12,7 +12,8 @@ use serde_json::json;
 use std::collections::{BTreeMap, HashSet};
 use vcore::{Run, Tier, Violation, util};
 use vstore::tamper::{
-    Read, Scenario, Tamper, WRITERS, Writer, apply_tamper, build_scenario, check_content, looks_legacy, sites, sizes,
+    Read, Reader, Scenario, Tamper, WRITERS, Writer, apply_tamper, build_scenario, check_content, check_content_stale,
+    check_content_via_copy, looks_legacy, sites, sizes, stale_applicable,
 };
 
 fn scenario_label(sc: &Scenario) -> String {
@@ -35,16 +36,28 @@ struct SiteResult {
     listing_skips: u64,
     panicked: u64,
     rollback_prev: bool,
+    /// copy / rename readers: copies the store accepted / refused
+    copies_accepted: u64,
+    copies_refused: u64,
 }
 
-fn check_site(sc: &Scenario, baseline_failed: &HashSet<Read>, t: &Tamper, strict: bool) -> SiteResult {
+fn check_site(sc: &Scenario, baseline_failed: &HashSet<Read>, t: &Tamper, strict: bool, reader: Reader) -> SiteResult {
     let mut r = SiteResult { kind: t.kind(), ..Default::default() };
     let Some(content) = apply_tamper(sc, t) else {
         return r;
     };
     r.applied = true;
     let touched = t.keys();
-    let out = check_content(sc, &content, &touched, strict);
+    let out = match reader {
+        Reader::Fresh => check_content(sc, &content, &touched, strict),
+        Reader::Stale => check_content_stale(sc, &content, strict),
+        Reader::Copy | Reader::Rename => {
+            let (out, acc, refu) = check_content_via_copy(sc, &content, &touched, strict, reader == Reader::Rename);
+            r.copies_accepted = acc;
+            r.copies_refused = refu;
+            out
+        }
+    };
     r.reads = out.reads;
     // failures the untampered store does not show: the tamper was detected
     r.failed = out.failed_reads.iter().filter(|rd| !baseline_failed.contains(*rd)).count() as u64;
@@ -92,19 +105,26 @@ fn check_site(sc: &Scenario, baseline_failed: &HashSet<Read>, t: &Tamper, strict
         } else {
             let suffix = if matches!(field, "e_tag" | "last_modified") { format!("/{field}") } else { String::new() };
             let kind = if legacy_look { format!("{}+legacy-look", t.kind()) } else { t.kind() };
-            format!("C09/tamper/{}/{}{}", kind, rd.kind(), suffix)
+            let via = if reader == Reader::Fresh { String::new() } else { format!("{}/", reader.label()) };
+            format!("C09/tamper/{via}{}/{}{}", kind, rd.kind(), suffix)
         };
         r.wrong.push(Violation {
             signature,
             summary: format!(
-                "{}{}; tamper {}; read {}: {}",
+                "{}{}{}; tamper {}; read {}: {}",
                 scenario_label(sc),
                 if strict { " (strict metadata auth)" } else { "" },
+                match reader {
+                    Reader::Fresh => "",
+                    Reader::Stale => "; reader = an instance whose cache holds the previous commit of `a` (generation reclaimed)",
+                    Reader::Copy => "; the key is first copied to a new key by a fresh instance, the target is read",
+                    Reader::Rename => "; the key is first renamed to a new key by a fresh instance, the target is read",
+                },
                 serde_json::to_string(t).unwrap_or_default(),
                 serde_json::to_string(&rd).unwrap_or_default(),
                 why
             ),
-            replay: json!({"size": sc.size, "writer": sc.writer, "tamper": t, "strict": strict}),
+            replay: json!({"size": sc.size, "writer": sc.writer, "tamper": t, "strict": strict, "reader": reader}),
         });
     }
     r
@@ -126,13 +146,14 @@ fn main() {
         let writer: Writer = serde_json::from_value(r["writer"].clone()).expect("writer");
         let t: Tamper = serde_json::from_value(r["tamper"].clone()).expect("tamper");
         let strict = r["strict"].as_bool().unwrap_or(false);
+        let reader: Reader = r.get("reader").cloned().and_then(|v| serde_json::from_value(v).ok()).unwrap_or(Reader::Fresh);
         let sc = util::block_on(build_scenario(size, writer));
         println!("replaying {} on {}", serde_json::to_string(&t).unwrap(), scenario_label(&sc));
         let base = baseline(&sc, strict);
         for (rd, _, why) in &base.wrong {
             println!("  untampered store: {rd:?}: {why}");
         }
-        let res = check_site(&sc, &base.failed_reads.iter().cloned().collect(), &t, strict);
+        let res = check_site(&sc, &base.failed_reads.iter().cloned().collect(), &t, strict, reader);
         run.add("evaluations", res.reads);
         println!(
             "  applied={} reads={} failed_because_of_tamper={} wrong={}",
@@ -164,8 +185,40 @@ fn main() {
 
     // the untampered content must read back exactly (sanity of the oracle)
     let mut baseline_failed: Vec<HashSet<Read>> = Vec::new();
+    // reads of copy / rename targets that fail on the untampered store too (invalid ranges)
+    let mut baseline_failed_targets: Vec<HashSet<Read>> = Vec::new();
     for sc in &scenarios {
         for strict in [false, true] {
+            // the other readers on the untampered content
+            let keys: Vec<String> = sc.original.keys().cloned().collect();
+            let stale = check_content_stale(sc, &sc.base, strict);
+            let mut others = vec![(Reader::Stale, stale)];
+            for reader in [Reader::Copy, Reader::Rename] {
+                let (out, _acc, refused) = check_content_via_copy(sc, &sc.base, &keys, strict, reader == Reader::Rename);
+                if refused > 0 {
+                    vcore::report::machinery(&format!("{}: {refused} copies of untampered objects were refused ({})", scenario_label(sc), reader.label()));
+                }
+                others.push((reader, out));
+            }
+            for (reader, out) in others {
+                run.add("evaluations", out.reads);
+                run.add("baseline_reads", out.reads);
+                run.add("baseline_reads_rejected_invalid_range", out.failed);
+                if out.failed_reads.iter().any(|rd| matches!(rd, Read::Get { range: None, .. } | Read::Head { .. } | Read::List)) {
+                    vcore::report::machinery(&format!("{}: the untampered store does not read back through the {} reader", scenario_label(sc), reader.label()));
+                }
+                for (rd, _, why) in &out.wrong {
+                    run.violation(Violation {
+                        signature: format!("C09/tamper/untampered/{}/{}", reader.label(), rd.kind()),
+                        summary: format!("{}; untampered store; {}; read {:?}: {}", scenario_label(sc), reader.label(), rd, why),
+                        replay: json!({"size": sc.size, "writer": sc.writer, "strict": strict, "reader": reader,
+                                       "tamper": Tamper::Extend{path: "none".into(), extra: vec![]}}),
+                    });
+                }
+                if !strict && reader == Reader::Copy {
+                    baseline_failed_targets.push(out.failed_reads.iter().cloned().collect());
+                }
+            }
             let out = baseline(sc, strict);
             run.add("evaluations", out.reads);
             run.add("baseline_reads", out.reads);
@@ -186,13 +239,29 @@ fn main() {
 
     // (scenario, site, strict): CBOR-level edits and probes are also read
     // through a store with strict metadata authentication
-    let mut work: Vec<(usize, Tamper, bool)> = Vec::new();
+    //
+    // Further readers of the same sites: the stale-cache instance (sites
+    // that touch `a`'s metadata document; thorough: also its payload), and
+    // copy / rename followed by the battery on the target (CBOR edits and
+    // the compound family in both modes; thorough: every site).
+    let wide = run.tier == Tier::Thorough;
+    let mut work: Vec<(usize, Tamper, bool, Reader)> = Vec::new();
     for (i, sc) in scenarios.iter().enumerate() {
         for t in sites(sc, &bits) {
-            if matches!(t, Tamper::Cbor { .. } | Tamper::Compound { .. }) || t.is_probe() {
-                work.push((i, t.clone(), true));
+            let structured = matches!(t, Tamper::Cbor { .. } | Tamper::Compound { .. });
+            let modes: &[bool] = if structured || t.is_probe() { &[true, false] } else { &[false] };
+            for strict in modes {
+                if !t.is_probe() {
+                    if stale_applicable(&t, wide) {
+                        work.push((i, t.clone(), *strict, Reader::Stale));
+                    }
+                    if structured || wide {
+                        work.push((i, t.clone(), *strict, Reader::Copy));
+                        work.push((i, t.clone(), *strict, Reader::Rename));
+                    }
+                }
+                work.push((i, t.clone(), *strict, Reader::Fresh));
             }
-            work.push((i, t, false));
         }
     }
     run.set("tamper_sites_enumerated", json!(work.len()));
@@ -201,6 +270,8 @@ fn main() {
     let mut probes: BTreeMap<String, (u64, u64, Option<String>)> = BTreeMap::new();
     let mut soft_kinds: BTreeMap<String, u64> = BTreeMap::new();
     let mut sig_counts: BTreeMap<String, (u64, String)> = BTreeMap::new();
+    // reader [mode] -> (sites, reads, reads failed, copies accepted, copies refused)
+    let mut by_reader: BTreeMap<String, (u64, u64, u64, u64, u64)> = BTreeMap::new();
     let total = work.len();
     let mut done = 0usize;
     let mut rollback_prev = 0u64;
@@ -210,10 +281,11 @@ fn main() {
             run.cap_hit(&format!("time budget: stopped after {done}/{total} tamper sites"));
             break;
         }
-        let results: Vec<SiteResult> = util::par_map(batch.to_vec(), threads, |(i, t, strict)| {
-            check_site(&scenarios[i], &baseline_failed[i], &t, strict)
+        let results: Vec<SiteResult> = util::par_map(batch.to_vec(), threads, |(i, t, strict, reader)| {
+            let base = if matches!(reader, Reader::Copy | Reader::Rename) { &baseline_failed_targets[i] } else { &baseline_failed[i] };
+            check_site(&scenarios[i], base, &t, strict, reader)
         });
-        for ((i, t, strict), r) in batch.iter().zip(results) {
+        for ((i, t, strict, reader), r) in batch.iter().zip(results) {
             done += 1;
             if !r.applied {
                 run.add("sites_not_applicable", 1);
@@ -221,6 +293,27 @@ fn main() {
             }
             run.add("evaluations", r.reads);
             let mode = if *strict { "strict" } else { "default" };
+            if *reader != Reader::Fresh {
+                // the other readers: own counters, same verdict
+                let e = by_reader.entry(format!("{} [{mode}]", reader.label())).or_insert((0, 0, 0, 0, 0));
+                e.0 += 1;
+                e.1 += r.reads;
+                e.2 += r.failed + r.failed_anyway;
+                e.3 += r.copies_accepted;
+                e.4 += r.copies_refused;
+                if r.failed > 0 || r.copies_refused > 0 {
+                    run.distinct(util::fnv64(format!("{i}|{strict}|{reader:?}|{}", serde_json::to_string(t).unwrap()).as_bytes()));
+                }
+                for v in r.wrong {
+                    let e = sig_counts.entry(v.signature.clone()).or_insert((0u64, String::new()));
+                    e.0 += 1;
+                    if e.1.is_empty() {
+                        e.1 = v.summary.clone();
+                    }
+                    run.violation(v);
+                }
+                continue;
+            }
             if t.is_probe() {
                 run.add("probe_sites", 1);
                 let e = probes.entry(format!("{} [{mode}]", r.kind)).or_insert((0, 0, None));
@@ -290,6 +383,10 @@ fn main() {
         "sites_by_kind",
         json!(by_kind.iter().map(|(k, (n, d, s))| (k.clone(), json!({"sites": n, "detected_by_some_read": d, "no_read_changed": s}))).collect::<BTreeMap<_, _>>()),
     );
+    run.set(
+        "other_readers",
+        json!(by_reader.iter().map(|(k, (n, rd, f, acc, refu))| (k.clone(), json!({"sites": n, "reads": rd, "reads_failed": f, "copies_accepted": acc, "copies_refused": refu}))).collect::<BTreeMap<_, _>>()),
+    );
     run.set("scenarios", json!(scenarios.len()));
     run.set("soft_meta_field_deviation_sites_by_kind", json!(soft_kinds));
     run.set(
@@ -305,6 +402,7 @@ fn main() {
          sites = every bit of every byte, every truncation length, 4 extensions of every backend object; every chunk swap; every swap / one-way replacement between payload objects (keys and generations) and between metadata documents; \
          CBOR edits of every metadata document (remove / null each field, strip combinations of an, at, av, g, m, c, zero n / an / at / t[i], remove / swap / append tags, alter s, c, av, m, copy g, e, n, t, m, s, an, at and combinations from another key's document and from the older generation's; CBOR edits are read in default and in strict mode); \
          compound downgrade family per key: every subset of {av, an, at, g, m} stripped x legacy object data/<key> {absent, this key's ciphertext, another key's} x size {unchanged, every chunk boundary <= len, the other key's length}, default and strict mode; \
+         further readers of the same sites, same verdict: (stale-cache reader) an instance A that read `a` while its previous commit was current - warm, valid cache entry whose generation instance B's overwrite reclaimed - then meets the tampered backend: every site touching a's metadata document (thorough: also its payload object), one fresh A per read {get, head, 6 ranged gets, 2 get_ranges}, so each read is the one that re-resolves the commit point half-way; (via-copy / via-rename) a fresh instance copies / renames every touched key to a new key - a refusal is a failure to answer - then the full battery on the target must answer the source's original bytes and size: CBOR edits and the compound family, default and strict mode (thorough: every site); \
          each site alone on a copy of the content, read through a fresh EncryptedStore: get, every GetRange kind at boundaries {0,1,15,16,17,len-1,len,len+1}, get_ranges (1-2 ranges), head, list, list_with_delimiter, list_with_offset (full battery on the keys whose objects were touched, get/head/get_ranges on the others); \
          distinct = (object, site) pairs for which at least one read failed that the untampered store answers",
     );
